@@ -5,6 +5,7 @@ what the model returns is what testing every triangle returns, by these theorems
 (hence every float64) input.  Helper lemmas live in Proofs/Query.lean.
 -/
 import TrimeshVerif.Proofs.Query
+import TrimeshVerif.Proofs.QueryPrune
 namespace TV.C12
 open TV.Query
 
@@ -50,5 +51,54 @@ theorem C12_closest_on_mesh (p : P) (ts : List Tri) (i : Nat) (q : P) (d : Rat)
     (∃ t, ts[i]? = some t ∧ q = closestPointTri p t ∧ d = dist2 p q) ∧
     ∀ t ∈ ts, d ≤ dist2 p (closestPointTri p t) := by
   exact closestOnMesh_spec p ts i q d h
+
+/-! ### the accelerated part: pruning with boxes loses nothing -/
+
+/-- **`ray_bounds` is complete**: every point `o + t·d`, `t ≥ 0`, of a ray whose coordinate along the
+    dominant axis of `d` lies within the tree bounds is inside the box `ray_bounds` returns — for every
+    origin, every direction with components at most 1 in magnitude (unit vectors), every non-negative
+    buffer, whatever the clamping of the two plane parameters did -/
+theorem C12_ray_bounds_complete (o d : P) (tb : Box) (buf t : Rat) (hb : 0 ≤ buf) (ht : 0 ≤ t)
+    (hd : SubUnit d) (hne : d ≠ (0, 0, 0))
+    (hlo : get tb.1 (argmaxAbs d) ≤ get (add o (smul t d)) (argmaxAbs d))
+    (hhi : get (add o (smul t d)) (argmaxAbs d) ≤ get tb.2 (argmaxAbs d)) :
+    inBox (add o (smul t d)) (rayBounds o d tb buf) :=
+  rayBounds_complete o d tb buf t hb ht hd hne hlo hhi
+
+/-- **a triangle that is hit is among the r-tree candidates** (its box meets the ray's box) -/
+theorem C12_hit_is_candidate (o d : P) (ts : List Tri) (buf : Rat) (hb : 0 ≤ buf) (hd : SubUnit d)
+    (t : Tri) (ht : t ∈ ts) (s u v : Rat) (h : rayTriangle o d t = some (s, u, v)) :
+    boxesMeet (rayBounds o d (treeBounds ts) buf) (triBox t) = true :=
+  hit_is_candidate o d ts buf hb hd t ht s u v h
+
+/-- **accelerated = exhaustive for rays**: the narrow phase run on the candidates only returns exactly
+    the hits of testing every triangle, in the same order (any mesh, any origin, any unit direction) -/
+theorem C12_pruning_lossless (o d : P) (ts : List Tri) (buf : Rat) (hb : 0 ≤ buf) (hd : SubUnit d) :
+    rayHitsPruned o d ts buf = rayHits o d ts :=
+  rayHitsPruned_eq o d ts buf hb hd
+
+example : SubUnit ((3 : Rat) / 5, 0, (-4 : Rat) / 5) ∧ (0 : Rat) ≤ 1 / 100000 := by
+  unfold SubUnit; norm_num
+
+/-- the unit-direction hypothesis is needed: with the clamp `t < buffer_dist → buffer_dist` in ray
+    parameter units, a direction of length 10^6 pushes the clamped segment past a triangle 4.5 units
+    ahead of the origin and the hit is pruned away (what the numpy engine did before `ray_triangle_id`
+    normalised its directions) -/
+theorem C12_pruning_needs_unit_direction :
+    let t : Tri := ((-1 / 2, -1, -1), (-1 / 2, 2, -1), (-1 / 2, -1, 2))
+    let o : P := (-5, 1 / 10, 1 / 5)
+    let d : P := (1000000, 0, 0)
+    rayHits o d [t] = [(0, 9 / 2000000)] ∧ rayHitsPruned o d [t] (1 / 100000) = [] := by
+  decide +kernel
+
+/-- **`nearby_faces` keeps the triangle that attains the minimum**: if `r` is at least the distance to
+    some corner of some triangle of the (non-degenerate) mesh — the code uses the nearest vertex — then the
+    triangle on which the exhaustive search finds the closest point is among the candidates -/
+theorem C12_nearby_complete (p : P) (ts : List Tri) (hnd : ∀ t ∈ ts, NonDeg t) (r : Rat) (hr : 0 ≤ r)
+    (t' : Tri) (ht' : t' ∈ ts)
+    (hcorner : dist2 p t'.1 ≤ r * r ∨ dist2 p t'.2.1 ≤ r * r ∨ dist2 p t'.2.2 ≤ r * r)
+    (i : Nat) (q : P) (d : Rat) (h : closestOnMesh p ts = some (i, q, d)) :
+    i ∈ nearbyFaces p r ts :=
+  nearby_complete p ts hnd r hr t' ht' hcorner i q d h
 
 end TV.C12
